@@ -52,8 +52,8 @@ manifest = {
     "engines": [
         {"name": "dbh", "path": "harness/dbh", "serves_properties": [p for p in ids if p in CHECKS and CHECKS[p]["engine"] == "dbh"],
          "kind_free_text": "Rust binary linking /repo/agdb (cfg agdb_verif): case engines run in worker subprocesses under a panic monitor, an allocation-cap allocator and storage step/fault wrappers; reference-model and crash-point oracles"},
-        {"name": "srvh", "path": "harness/srvh_src (generated crate harness/srvh, see lib/gen_srvh.py)", "serves_properties": ["C28", "C31"],
-         "kind_free_text": "the server's own unmodified modules compiled together with a driver: real ClusterStorage / ClusterLog / ServerDb / DbPool on a multi-thread tokio runtime; ordering oracle (C31) and validation of the raft simulator's storage mirror (C28)"},
+        {"name": "srvh", "path": "harness/srvh_src (generated crate harness/srvh, see lib/gen_srvh.py)", "serves_properties": ["C24", "C25", "C26", "C28", "C31"],
+         "kind_free_text": "the server's own unmodified modules compiled together with two drivers: (driver.rs) real ClusterStorage / ClusterLog / ServerDb / DbPool on a multi-thread tokio runtime; ordering oracle (C31) and validation of the raft simulator's storage mirror (C28); (http_driver.rs) starts the real agdb_server binary built from the working tree and drives it over HTTP: permission model + state probe (C24), DbMemory twin + audit checker (C25), raw-socket hostile names under strace with per-request file-system call attribution (C26)"},
         {"name": "rafth", "path": "harness/rafth", "serves_properties": [p for p in ids if p in CHECKS and CHECKS[p]["engine"] == "rafth"],
          "kind_free_text": "Rust binary that includes the real agdb_server/src/raft.rs (clock substituted at build time) in a virtual-time simulator with adversarial and transport-faithful networks; invariant and bounded-progress monitors"},
     ],
